@@ -715,6 +715,25 @@ func (c *evalCtx) call(x *ast.CallExpr) SV {
 			return SV{t: boolT, term: fmt.Sprintf("(rv-bool %s)", v.term)}
 		}
 		return SV{t: types.Typ[types.Uint], term: fmt.Sprintf("(rv-kind %s)", v.term)}
+	case "called":
+		// called(g): the call recorded by "calls F(...) as g" has happened on the current path
+		argn(1)
+		id, ok := x.Args[0].(*ast.Ident)
+		top := enc.top
+		if !ok || top == nil || top.contract == nil {
+			cfail("called() needs the ghost name of a calls clause")
+		}
+		for k, cs := range top.contract.Calls {
+			if cs.As == id.Name {
+				flag, ok := c.heap[ghostCallKey(k)]
+				if !ok {
+					flag = "false"
+				}
+				return SV{t: boolT, term: flag}
+			}
+		}
+		cfail("called(%s): no calls clause binds that name", id.Name)
+		panic("unreachable")
 	case "fresh":
 		// allocated by this function (pre-existing references are >= 0): pointers, maps, slices
 		argn(1)
